@@ -62,3 +62,9 @@ claim("C17", "proof",
       "Every Evaluator::evaluate implementation is summarised from MIR as contributions (kind, side, coefficient, sign); the obligations (added table == subtracted table as multisets; added terms on current_turn, subtracted on current_turn.opposite(); Color::opposite an involution; accumulator starts at 0 with no other update and no other board read; get_piece_count uses the same (kind, colour) -> bitboard bijection as add_piece/remove_piece) give eval(p) = sum_K v_K (n(K,mover) - n(K,opponent)), hence both symmetries for all positions.",
       "assumes no i16 saturation (legal material <= 10300) and that the bitboards hold what add_piece/remove_piece put there.",
       "static analysis: symbolic summarisation of the evaluator + table equality over rustc MIR", "DESIGN.md section 3 C17")
+
+
+claim("C16", "other",
+      "Absence of nondeterminism sources on the whole call graph rooted at Search::search and bench::bench: resolved-callee deny-list (clock, OS randomness, RandomState, env, threads, files, pointer-to-integer casts) with the confirmed instances frozen by (caller, callee) and confined to the info line or to comparisons against SearchLimits fields; only order-independent methods on hash containers and an identity-hashed cache; constant Zobrist seed and source-free OnceLock initialisers; no mutable statics but the cache, no thread-locals, no shared cells but the running flag; fresh Info per search; cache empty at start and cleared between bench positions; cache untouched by the input thread. What a repeated-run test can only sample, this excludes for every schedule and load.",
+      "assumes std functions outside the deny-list are deterministic and codegen is deterministic.",
+      "static analysis: call-graph effect scan (deny-list of resolved callees) + who-may-access statics over rustc MIR", "DESIGN.md section 3 C16")
